@@ -648,6 +648,20 @@ func (s *SSEServer) handleMessage(w http.ResponseWriter, r *http.Request) {
 	// Create context with session.
 	ctx = s.createSessionContext(ctx, session)
 
+	// An id without method, result or error is no JSON-RPC message at all: refuse it before accepting.
+	if base.ID != nil && base.Method == "" {
+		var members map[string]json.RawMessage
+		_ = json.Unmarshal(rawMessage, &members)
+		_, hasResult := members["result"]
+		_, hasError := members["error"]
+		if !hasResult && !hasError {
+			w.Header().Set("Content-Type", "application/json")
+			w.WriteHeader(http.StatusBadRequest)
+			s.writeJSONRPCError(w, base.ID, ErrCodeInvalidRequest, "Invalid JSON-RPC message format")
+			return
+		}
+	}
+
 	// Immediately return HTTP 202 Accepted status code, indicating request has been received.
 	w.WriteHeader(http.StatusAccepted)
 
